@@ -54,5 +54,5 @@ TraceSpec == TraceInit /\ [][TraceNext]_<<vars, l>>
 Progress == TLCSet(1, IF l > TLCGet(1) THEN l ELSE TLCGet(1))
 TraceInv == OneResultPerScene /\ MonitorOK
 Accepted == IF TLCGet(1) = Len(Rec) + 1 THEN TRUE
-            ELSE PrintT(<<"REJECTED at line", TLCGet(1), Rec[TLCGet(1)]>>) /\ FALSE
+            ELSE PrintT("REJECTED at line " \o ToString(<<TLCGet(1), Rec[TLCGet(1)]>>)) /\ FALSE
 =============================================================================
